@@ -84,6 +84,15 @@ func (FixedWindow) New(cfg Config) fiber.Handler {
 		// Store err for returning
 		err := c.Next()
 
+		// A handler that fails by returning an error has not written its status yet: let the
+		// error handler answer now, so that the skip options judge the status the client gets
+		if err != nil && (cfg.SkipSuccessfulRequests || cfg.SkipFailedRequests) {
+			if herr := c.App().ErrorHandler(c, err); herr != nil {
+				_ = c.SendStatus(fiber.StatusInternalServerError) //nolint:errcheck // always nil
+			}
+			err = nil
+		}
+
 		// Check for SkipFailedRequests and SkipSuccessfulRequests
 		if (cfg.SkipSuccessfulRequests && c.Response().StatusCode() < fiber.StatusBadRequest) ||
 			(cfg.SkipFailedRequests && c.Response().StatusCode() >= fiber.StatusBadRequest) {
